@@ -36,8 +36,15 @@ FAULTS = [
     ("overlong-char", "SET(R1, {X})", "over-long character", "X", "'ab'"),
     ("escape-warning", 'LP_STRING("a{X}b")', "unrecognized backslash escape", "X", "\\q"),
 ]
+# run-time diagnostics: the operation is executed; an identical operation that is never executed (or executed later)
+# stands elsewhere in the program, so that only the identity of the reported operation tells them apart
 RUNTIME = [
-    ("return-warning", "RETURN(FP_alt, PC_ret)", "incorrect return address", "name", "RETURN"),
+    ("rt-return", "{X}(FP_alt, PC_ret)", "incorrect return address", "name", "RETURN"),
+    ("rt-return-opcode", "{X}(0x21CD)", "incorrect return address", "name", "OPCODE"),
+    ("rt-stack-set", "{X}(SP, 0xC005)", "stack has overflowed", "name", "SET"),
+    ("rt-stack-opcode", "{X}(0xEFFF)", "stack has overflowed", "name", "OPCODE"),
+    ("rt-stack-move", "{X}(SP, R7)", "stack has overflowed", "name", "MOVE"),
+    ("rt-eval", '{X}("1/0")', "Python exception", "name", "__eval"),
 ]
 GOOD = ["SET(R1, 5)", "ADD(R2, R1, R1)", "INC(R3, 1)", "NOP()", "MOVE(R4, R1)", "// just a comment", "", "FLAGS(R1)", "SETRF(R5, -2)"]
 
@@ -58,9 +65,17 @@ def layout_line(rng, line):
 
 
 def gen_case(rng):
-    kind, tmpl, frag, where, tok = rng.choice(FAULTS)
+    kind, tmpl, frag, where, tok = rng.choice(FAULTS + RUNTIME[:rng.choice([0, 0, len(RUNTIME)])])
     before = [rng.choice(GOOD) for _ in range(rng.choice([0, 1, 3, 6]))]
     after = [rng.choice(GOOD) for _ in range(rng.choice([0, 1, 3]))]
+    if kind.startswith("rt-"):
+        twin = tmpl.replace("{X}", tok)
+        if kind == "rt-stack-move":
+            before.append("SET(R7, 0xC100)")
+        # look-alikes: one that is jumped over before the fault, ones after the end of the run
+        if rng.random() < 0.5:
+            before += ["BR(over)", layout_line(rng, twin), "LABEL(over)"]
+        after = ["HALT()"] + [layout_line(rng, twin) for _ in range(rng.choice([0, 1, 1, 2]))]
     env = rng.choice(["plain", "plain", "kept-block", "dead-block-before", "else-block", "include", "same-line", "crlf", "formfeed",
                       "raw-newline-string", "block-comment-lines"])
     pre_lines = ["LABEL(top)"] + before
@@ -139,6 +154,9 @@ def run_case(case, d):
         with open(inc, "w", newline="") as f:
             f.write(text)
         main_text = "SET(R8, 1)\n\n#include \"part.hera\"\nSET(R8, 2)\n"
+        if case["kind"].startswith("rt-"):
+            # the same operation once more in the including file, never executed
+            main_text += "HALT()\n" + dict((k, t.replace("{X}", tk)) for k, t, _f, _w, tk in RUNTIME)[case["kind"]] + "\n"
         with open(path, "w", newline="") as f:
             f.write(main_text)
         expect_path = inc
@@ -211,6 +229,8 @@ def check(seed, n):
             evals += 1
             seen.add(case["marked"])
             dist[case["env"]] = dist.get(case["env"], 0) + 1
+            if case["kind"].startswith("rt-"):
+                dist["run-time kinds"] = dist.get("run-time kinds", 0) + 1
             if problem:
                 v = {"property": "C17", "stream": "locs", "sig": "loc:{}:{}".format(case["env"], re.sub(r"[0-9]+", "N", problem)[:40]),
                      "case": case, "what": "[{} / {}] {}".format(case["kind"], case["env"], problem)}
@@ -223,11 +243,99 @@ def check(seed, n):
 
 
 def replay_case(case):
+    if case.get("kind") == "oploc":
+        r = oploc_problem(case["marked"], case["kinds"], case["mode"])
+        return None if r == "skip" else r
     d = tempfile.mkdtemp(prefix="hera_verif_loc_")
     try:
         return run_case(case, d)[0]
     finally:
         shutil.rmtree(d, ignore_errors=True)
+
+
+# ---------------------------------------------------------------------------------------------------------
+# every operation of the loaded program carries the position of the operation it was written as
+
+OPLOC_CODE = ["SET(R1, 5)", "SET(R1, 5)", "ADD(R2, R1, R1)", "NOP()", "OPCODE(0x21CD)", "OPCODE(0x21CD)", "OPCODE(0)", "OPCODE(0)",
+              "MOVE(R4, R1)", "CMP(R1, R2)", "SETRF(R5, -2)", "print_reg(R1)", "print(\"x\")", "NOT(R1, R2)", "CALL(R12, top)", "BR(top)",
+              "BRR(top)", "INC(R3, 1)", "INC(R3, 1)", "HALT()", "RETURN(R12, R13)", "NEG(R1, R2)", "SWI(1)", "RTI()"]
+OPLOC_DATA = ["INTEGER(5)", "INTEGER(5)", "DSKIP(2)", "LP_STRING(\"ab\")", "TIGER_STRING(\"ab\")"]
+OPLOC_NONE = ["LABEL(l{n})", "CONSTANT(c{n}, 3)", "// SET(R1, 5)", "/* NOP() */", ""]
+
+
+def gen_oploc(rng):
+    """(marked text, kinds): each operation name is preceded by \\x01; kinds[i] in code / data / none for the i-th marker"""
+    lines, kinds = ["LABEL(top)"], []
+    nd = rng.choice([0, 0, 1, 3])
+    n = 0
+    for i in range(nd + rng.choice([1, 3, 6, 12])):
+        pool = OPLOC_DATA if i < nd else OPLOC_CODE
+        if rng.random() < 0.2:
+            t = rng.choice(OPLOC_NONE).replace("{n}", str(n))
+            n += 1
+            lines.append(t)
+            continue
+        t = rng.choice(pool)
+        kinds.append("data" if i < nd else "code")
+        piece = layout_line(rng, "\x01" + t)
+        if rng.random() < 0.15 and lines and "//" not in lines[-1]:
+            lines[-1] += "  " + piece       # two operations on one line
+        else:
+            lines.append(piece)
+    if rng.random() < 0.3:
+        k = rng.randrange(1, len(lines) + 1)
+        lines[k:k] = rng.choice([["#ifdef HERA_C", "junk {", "#endif"], ["#ifndef HERA_PY", "junk", "#else", "#endif"], ["#ifdef HERA_PY", "#endif"]])
+    return "\n".join(lines) + "\n", kinds
+
+
+def oploc_problem(marked, kinds, mode):
+    text = marked.replace("\x01", "")
+    want, off = [], 0
+    for i, ch in enumerate(marked):
+        if ch == "\x01":
+            want.append(line_col(text, i - len(want)))
+    st = progrun.make_settings(mode=mode)
+    prog, out, errs, exc = progrun.load(text, st)
+    if prog is None:
+        return "skip"
+    for what, ops, kind in (("code", prog.code, "code"), ("data", prog.data, "data")):
+        got = []
+        for op in ops:
+            if op.loc is None:
+                return "an operation of the loaded program ({}) carries no location".format(op.name)
+            p = (op.loc.line, op.loc.column)
+            if not got or got[-1] != p:
+                got.append(p)
+        exp = [w for w, k in zip(want, kinds) if k == kind]
+        if mode in ("assemble", "preprocess") and kind == "code":
+            continue        # debugging operations are dropped there: covered by the run modes
+        if got != exp:
+            for j, (g, e) in enumerate(zip(got + [None] * len(exp), exp + [None] * len(got))):
+                if g != e:
+                    return "the {} operations of the loaded program carry, in order, the positions {}... but were written at {}... (first difference at #{})".format(
+                        what, got[max(0, j - 1):j + 2], exp[max(0, j - 1):j + 2], j)
+    return None
+
+
+def check_oploc(seed, n):
+    rng = random.Random(seed)
+    violations, seen, evals, dist = [], set(), 0, {"loaded": 0, "rejected": 0}
+    for k in range(n):
+        marked, kinds = gen_oploc(rng)
+        mode = ["", "debug"][k % 2]
+        r = oploc_problem(marked, kinds, mode)
+        if k % 400 == 0:
+            proto.sample("oploc", {"text": marked.replace("\x01", ""), "mode": mode}, per_stream=3)
+        evals += 1
+        seen.add((marked, mode))
+        if r == "skip":
+            dist["rejected"] += 1
+            continue
+        dist["loaded"] += 1
+        if r:
+            violations.append({"property": "C17", "stream": "oploc", "sig": "oploc:" + re.sub(r"[0-9]+", "N", r)[:40],
+                               "case": {"kind": "oploc", "marked": marked, "kinds": kinds, "mode": mode}, "what": r})
+    return {"evaluations": evals, "violations": violations, "disagreements": [], "distribution": dist, "distinct": len(seen)}
 
 
 # ---------------------------------------------------------------------------------------------------------
